@@ -14,7 +14,8 @@
                                          deepcopy(get_node_template(n)) ; update_var ; add_node_template(n, copy)
      update_edge          circuit.py  update_var, edge_vars part: `_edge_map[(s, t, 0)]` is the first own edge (s, t);
                                          `base_dict.update(edge_dict)`
-     observe              what `apply(node_values=nv)` hands to the compiler: per node path the operator values
+     update_template      circuit.py  update_template (nodes / edges, with and without in_place)
+     observe              what `apply(node_values=nv, edge_values=ev)` hands to the compiler: per node path the operator values
                                          (variations copied, overridden by nv, defaults filled in) and collect_edges()
    `d` is `CircuitTemplate._depth`; patterns / node paths must have d+1 components (anything else: not modelled, `None`).
    A Python exception is `None`; a history step that raises leaves the state as it was (single-key calls).
@@ -337,46 +338,129 @@ Definition tnodes_of (d : nat) (t : atree) : option (list (path * anode)) :=
   | None => None
   end.
 
+(* ---------------------------------------------------------------- update_template (circuit.py 192-263, 1627-1649) *)
+(* update_template(nodes=adds, edges=es, in_place=..): `nodes = update_dict(self.nodes, nodes)` deep-copies the whole
+   dict of node templates (one memo: sharing among the copies is preserved) and then registers the passed NodeTemplate
+   objects under their names; `edges = update_edges(self.edges, edges)` copies the edge list and appends; without
+   in_place a new CircuitTemplate object is constructed (its `_edge_map` is rebuilt), with in_place the attributes of
+   `self` are overwritten — `self._edge_map` is NOT rebuilt (see `stale` below).  Passing nodes to a hierarchical
+   template raises.  `adds` names the passed objects by the node paths they are fetched from (get_node_template). *)
+Definition resolve_adds (d : nat) (h : heap) (r : id) (adds : list (string * path)) : option (list (string * id)) :=
+  mapM (fun a => match get_node_template d h r (snd a) with Some nid => Some (fst a, nid) | None => None end) adds.
+Definition tresolve_adds (t : atree) (adds : list (string * path)) : option (list (string * anode)) :=
+  mapM (fun a => match tget_node t (snd a) with Some x => Some (fst a, x) | None => None end) adds.
+Definition is_nil {A} (l : list A) : bool := match l with [] => true | _ => false end.
+
+Definition update_template (d : nat) (r : id) (h : heap) (inpl : bool) (adds : list (string * path)) (es : list edge)
+  : option (heap * id) :=
+  match lookup h r, resolve_adds d h r adds with
+  | Some (OCirc ch es0), Some news =>
+    let copied := if is_nil adds then Some (h, ch)
+                  else match d with
+                       | O => match copy_children copy_node_m h [] ch with
+                              | Some (h1, _, ch1) => Some (h1, dupdate ch1 news) | None => None end
+                       | S _ => None
+                       end in
+    match copied with
+    | Some (h1, ch') =>
+      if inpl then Some (hset h1 r (OCirc ch' (es0 ++ es)), r)
+      else Some (h1 ++ [OCirc ch' (es0 ++ es)], List.length h1)
+    | None => None
+    end
+  | _, _ => None
+  end.
+Definition tupdate_template (t : atree) (adds : list (string * path)) (es : list edge) : option atree :=
+  match tresolve_adds t adds with
+  | Some news =>
+    match t with
+    | ALeaf ns es0 => Some (ALeaf (dupdate ns news) (es0 ++ es))
+    | AInner ss es0 => if is_nil adds then Some (AInner ss (es0 ++ es)) else None
+    end
+  | None => None
+  end.
+
 (* ---------------------------------------------------------------- histories *)
+Definition ev_entry := (string * string * vars)%type.
 Inductive hop :=
 | UpdVar (pat : path) (op var : string) (v : val)
 | UpdEdge (s t : string) (upd : vars)
-| Observe (nv : list nv_entry).
+| UpdTemplate (inpl : bool) (adds : list (string * path)) (es : list edge)   (* c = c.update_template(...) / in_place *)
+| Observe (nv : list nv_entry) (ev : list ev_entry).                        (* apply(node_values=nv, edge_values=ev) *)
 Inductive hout := ODone | ORaised | OObs (nodes : list (okey * val)) (edges : list edge).
 
-Definition observe (d : nat) (r : id) (h : heap) (nv : list nv_entry) : hout :=
+(* apply(edge_values={(source, target): attrs}): every edge between the two variables gets the passed attributes *)
+Definition ev_apply (ev : list ev_entry) (e : edge) : edge :=
+  let '(s, t, a) := e in
+  match find (fun x : ev_entry => let '(s', t', _) := x in String.eqb s s' && String.eqb t t') ev with
+  | Some (_, _, upd) => (s, t, dupdate a upd)
+  | None => e
+  end.
+(* a value that is still an array of >= 2 elements (its length did not match the number of addressed nodes) makes the
+   compilation raise ("Shapes of state variable ... do not match") *)
+Definition bad_val (v : val) : bool := match v with Arr l => Nat.leb 2 (List.length l) | Sc _ => false end.
+Definition finish (vals : list (okey * val)) (es : list edge) (ev : list ev_entry) : hout :=
+  if existsb (fun kv => bad_val (snd kv)) vals then ORaised else OObs vals (map (ev_apply ev) es).
+
+Definition observe (d : nat) (r : id) (h : heap) (nv : list nv_entry) (ev : list ev_entry) : hout :=
   match nodes_of d r h, overrides (get_nodes d h r) nv, collect_edges d h r with
-  | Some ns, Some ovs, Some es => OObs (render ovs ns) es
+  | Some ns, Some ovs, Some es => finish (render ovs ns) es ev
   | _, _, _ => ORaised
   end.
-Definition tobserve (d : nat) (t : atree) (nv : list nv_entry) : hout :=
+Definition tobserve (d : nat) (t : atree) (nv : list nv_entry) (ev : list ev_entry) : hout :=
   match tnodes_of d t, overrides (tget_nodes t) nv with
-  | Some ns, Some ovs => OObs (render ovs ns) (tcollect_edges t)
+  | Some ns, Some ovs => finish (render ovs ns) (tcollect_edges t) ev
   | _, _ => ORaised
   end.
 
-Definition stepI (d : nat) (r : id) (h : heap) (o : hop) : heap * hout :=
+(* Impl state: store, the template object the user's variable holds, and `stale`: None when `_edge_map` of that object
+   describes its edge list; Some keys after update_template(edges=.., in_place=True), which replaces `self.edges` by a
+   copy but leaves `_edge_map` pointing at the OLD tuples (keys = the (source, target) pairs it knows): update_var(edge_vars)
+   then writes into dictionaries the template no longer uses, or raises KeyError for the new edges. *)
+Definition istate := (heap * id * option (list (string * string)))%type.
+Definition edge_keys (es : list edge) : list (string * string) := map (fun e : edge => let '(s, t, _) := e in (s, t)) es.
+Definition root_edges_of (h : heap) (r : id) : list edge := match lookup h r with Some (OCirc _ es) => es | _ => [] end.
+
+Definition stepI (d : nat) (st : istate) (o : hop) : istate * hout :=
+  let '(h, r, stale) := st in
   match o with
-  | UpdVar pat op var v => match update_var d r h pat op var v with Some h' => (h', ODone) | None => (h, ORaised) end
-  | UpdEdge s t upd => match update_edge r h s t upd with Some h' => (h', ODone) | None => (h, ORaised) end
-  | Observe nv => (h, observe d r h nv)
+  | UpdVar pat op var v => match update_var d r h pat op var v with Some h' => ((h', r, stale), ODone) | None => (st, ORaised) end
+  | UpdEdge s t upd =>
+    match stale with
+    | None => match update_edge r h s t upd with Some h' => ((h', r, stale), ODone) | None => (st, ORaised) end
+    | Some keys => if existsb (fun k => String.eqb s (fst k) && String.eqb t (snd k)) keys then (st, ODone) else (st, ORaised)
+    end
+  | UpdTemplate inpl adds es =>
+    match update_template d r h inpl adds es with
+    | Some (h', r') =>
+      ((h', r', if inpl then (if is_nil es then stale
+                              else match stale with None => Some (edge_keys (root_edges_of h r)) | s => s end)
+                else None), ODone)
+    | None => (st, ORaised)
+    end
+  | Observe nv ev => (st, observe d r h nv ev)
   end.
 Definition stepS (d : nat) (t : atree) (o : hop) : atree * hout :=
   match o with
   | UpdVar pat op var v => match tupdate_var t pat op var v with Some t' => (t', ODone) | None => (t, ORaised) end
   | UpdEdge s tg upd => match tupdate_edge t s tg upd with Some t' => (t', ODone) | None => (t, ORaised) end
-  | Observe nv => (t, tobserve d t nv)
+  | UpdTemplate _ adds es => match tupdate_template t adds es with Some t' => (t', ODone) | None => (t, ORaised) end
+  | Observe nv ev => (t, tobserve d t nv ev)
   end.
-Fixpoint runI (d : nat) (r : id) (h : heap) (ops : list hop) : heap * list hout :=
+Fixpoint runI (d : nat) (st : istate) (ops : list hop) : istate * list hout :=
   match ops with
-  | [] => (h, [])
-  | o :: rest => let '(h1, out) := stepI d r h o in let '(h2, outs) := runI d r h1 rest in (h2, out :: outs)
+  | [] => (st, [])
+  | o :: rest => let '(s1, out) := stepI d st o in let '(s2, outs) := runI d s1 rest in (s2, out :: outs)
   end.
 Fixpoint runS (d : nat) (t : atree) (ops : list hop) : atree * list hout :=
   match ops with
   | [] => (t, [])
   | o :: rest => let '(t1, out) := stepS d t o in let '(t2, outs) := runS d t1 rest in (t2, out :: outs)
   end.
+Definition init_state (h : heap) (r : id) : istate := (h, r, None).
+
+(* guard of the known finding C07-inplace-edge-map: no update_template(edges=.., in_place=True) in the history *)
+Definition inplace_edges (o : hop) : bool := match o with UpdTemplate true _ (_ :: _) => true | _ => false end.
+Definition no_inplace_edge_template (ops : list hop) : bool := negb (existsb inplace_edges ops).
 
 (* ---------------------------------------------------------------- comparison glue for the correspondence run *)
 Definition val_eqb (a b : val) : bool :=
